@@ -534,6 +534,10 @@ func callGuarded(limit time.Duration, f func() (proto.Message, error)) (res prot
 
 // runWire is the body of C20.
 func runWire(t *testing.T, rc *RunCtx) {
+	if rc.Param("mode", "") == "daemon" {
+		runDaemonWire(t, rc)
+		return
+	}
 	if rc.Param("mode", "") == "free" {
 		runFreeWire(t, rc)
 		return
